@@ -128,6 +128,16 @@ def run(ctx: Ctx, tier: str) -> Result:
         res.ok("C12.LOOP", {"nothing escapes the timer thread": True})
     for tok, ch_ in esc.items():
         res.fail(Finding("C12.LOOP", tg.qname, "<escape %s>" % tok, tg.loc(), "%s can end the poll timer thread" % tok, path=g.fmt_chain(ch_)))
+    # ... and a poll that failed does not keep a later one from running: a lock taken on the poll path is given back on
+    # every way out
+    from .common import lock_leaks
+    pollpath = [f for f in p.functions.values() if f.module.name.startswith(("deep.poll", "deep.grpc", "deep.config.tracepoint_config", "deep.utils"))]
+    leaks = lock_leaks(ctx, pollpath)
+    for f_, c_, why in leaks:
+        res.fail(Finding("C12.LOOP", f_.qname, c_, f_.loc(c_), "`%s` is %s: after one failed poll every later poll stops at the lock, the agent keeps the "
+                         "old configuration for good" % (norm(c_), why)))
+    if not leaks:
+        res.ok("C12.LOOP", {"no explicit lock acquisition without a guaranteed release on the poll path": len(pollpath)})
     ip = [f for f in p.functions.values() if f.cls is p.cls(POLL) and f.name.endswith("initial_poll")]
     st = p.func(POLL + ".start")
     started = [c for c in t.calls_in(st) if any(x.qname == TIMER + ".start" for x in t.resolve_call(c, st).repo)]
